@@ -63,6 +63,23 @@ Definition w_out_status (w : wstate) : Z := match w_flushed w with Some (c, _) =
 Definition w_out_hdr (w : wstate) : hmap := match w_flushed w with Some (_, h) => h | None => w_h w end.
 Definition w_out_body (w : wstate) : bytes := match w_flushed w with Some _ => w_buf w ++ w_pipe w | None => w_buf w end.
 
+(* hasHeaderValue: headerValueScanner cuts at commas, stripSpace removes SP / HTAB at both ends (c40b715),
+   caseInsensitiveCompare ignores bit 0x20 *)
+Fixpoint split_comma_acc (s cur : bytes) : list bytes :=
+  match s with
+  | [] => [rev cur]
+  | c :: r => if c =? COMMA then rev cur :: split_comma_acc r [] else split_comma_acc r (c :: cur)
+  end.
+Definition split_comma (s : bytes) : list bytes := split_comma_acc s [].
+Fixpoint strip_left_sp (s : bytes) : bytes :=
+  match s with
+  | c :: r => if (c =? SP) || (c =? HT) then strip_left_sp r else s
+  | [] => []
+  end.
+Definition strip_space (s : bytes) : bytes := rev (strip_left_sp (rev (strip_left_sp s))).
+Definition has_header_value (v tok : bytes) : bool :=
+  existsb (fun e => ieq (strip_space e) tok) (split_comma v).
+
 (* ------------------------------------------------------------------ *)
 (* fasthttp ResponseHeader as the adaptor drives it: AddBytesKV per (key, value). *)
 Record fhdr := {
@@ -106,8 +123,8 @@ Definition fh_add (f : fhdr) (k0 v0 : bytes) : fhdr :=
   | KContentEncoding => {| f_ct := f_ct f; f_ce := v; f_server := f_server f; f_h := f_h f; f_cookies := f_cookies f |}
   | KServer => {| f_ct := f_ct f; f_ce := f_ce f; f_server := v; f_h := f_h f; f_cookies := f_cookies f |}
   | KSetCookie => {| f_ct := f_ct f; f_ce := f_ce f; f_server := f_server f; f_h := f_h f; f_cookies := f_cookies f ++ [v] |}
-  | KConnection =>     (* "close" sets the flag; anything else is stored with set semantics.  Not observed (excluded) *)
-      if beq v tokClose then f
+  | KConnection =>     (* the close option sets the flag (951f378); anything else is stored with set semantics.  Not observed (excluded) *)
+      if has_header_value v tokClose then f
       else {| f_ct := f_ct f; f_ce := f_ce f; f_server := f_server f; f_h := set_arg (f_h f) k v; f_cookies := f_cookies f |}
   | KContentLength | KTransferEncoding | KDate | KTrailer => f   (* managed by fasthttp / trailers: not observed *)
   | KPlain => {| f_ct := f_ct f; f_ce := f_ce f; f_server := f_server f; f_h := f_h f ++ [(k, v)]; f_cookies := f_cookies f |}
@@ -160,16 +177,6 @@ Definition lines_get (l : list (bytes * bytes)) (n : bytes) : list bytes :=
   map snd (filter (fun kv => ieq (fst kv) n) l).
 Definition last_or_empty (l : list bytes) : bytes := last l [].
 
-(* hasHeaderValue: a comma separated list contains the token (case-insensitive, OWS trimmed) *)
-Fixpoint split_comma_acc (s cur : bytes) : list bytes :=
-  match s with
-  | [] => [rev cur]
-  | c :: r => if c =? COMMA then rev cur :: split_comma_acc r [] else split_comma_acc r (c :: cur)
-  end.
-Definition split_comma (s : bytes) : list bytes := split_comma_acc s [].
-Definition has_header_value (v tok : bytes) : bool :=
-  existsb (fun e => ieq (trim_ows e) tok) (split_comma v).
-
 Fixpoint join_with (sep : bytes) (l : list bytes) : bytes :=
   match l with
   | [] => []
@@ -193,9 +200,9 @@ Definition fh_parse (q : sreq) : freq :=
   let chunked := existsb (fun v => ieq v sChunked) (lines_get l hdrTransferEncoding) in
   let cls := lines_get l hdrContentLength in
   let ignore_body := beq (q_method q) sGET || beq (q_method q) sHEAD in
-  (* Connection lines: the last one decides; a line without "close" is stored *)
+  (* Connection lines: any line with the close option sets the flag (0c9b9fb); a line without it is stored *)
   let conns := lines_get l hdrConnection in
-  let close_hdr := match rev conns with v :: _ => has_header_value v tokClose | [] => false end in
+  let close_hdr := existsb (fun v => has_header_value v tokClose) conns in
   let conn_stored := filter (fun v => negb (has_header_value v tokClose)) conns in
   let close :=
     if close_hdr then true
